@@ -49,6 +49,9 @@ pub fn galgorithm() -> BoxedStrategy<String> {
         // names that share a long prefix (16, 23, 32 bytes and more), differ in length, and are not prefixes of one another
         2 => (select(&["blake2b-512-keyed", "sha3-512-truncated-to-256-bits", "x", "algorithm-with-a-very-long-common-prefix-0123456789"][..]), select(&["_b", "-a1", "-a", "_", "0", "-00", ".z", "+", "_bb", "-a10"][..]))
             .prop_map(|(stem, tail)| format!("{stem}{tail}")),
+        // pairs that are different algorithms (they differ after lower-casing) but coincide under upper-casing or case
+        // folding: a canonical order must still tell them apart
+        2 => select(&["a\u{3c2}", "a\u{3c3}", "stra\u{df}e", "strasse", "\u{17f}ha", "sha", "\u{fb01}x", "fix", "\u{3c2}", "\u{3c3}"][..]).prop_map(str::to_string),
         // long names (beyond the inline capacity of the small-string type) in scripts with case
         1 => select(&["ΑΒΓΔΕΖΗΘΙΚΛΜΣ", "αβγδεζηθικλμσ", "ΟΔΟΣ", "ÆB", "ÆSHA", "blake2b-512-personalised-XYZ", "SHAKE256-LONG-DIGEST-NAME-0001"][..]).prop_map(str::to_string),
         2 => gtext(0).prop_map(|s| s.chars().map(|c| if c == ',' { ';' } else { c }).collect::<String>()),
